@@ -427,8 +427,6 @@ class BasinProxyFeature(np.lib.mixins.NDArrayOperatorsMixin):
     def __getattr__(self, item):
         if item in [
             "dtype",
-            "shape",
-            "size",
         ]:
             return getattr(self.feat_obj, item)
         else:
@@ -456,6 +454,19 @@ class BasinProxyFeature(np.lib.mixins.NDArrayOperatorsMixin):
 
     def __len__(self):
         return len(self.basinmap)
+
+    @property
+    def shape(self):
+        """Shape of the mapped feature data
+
+        The first axis is defined by the mapping, not by the basin feature.
+        """
+        return (len(self.basinmap),) + tuple(self.feat_obj.shape[1:])
+
+    @property
+    def size(self):
+        """Number of elements of the mapped feature data"""
+        return int(np.prod(self.shape))
 
 
 def basin_priority_sorted_key(bdict: Dict):
